@@ -63,7 +63,9 @@ define {
 \* Scheduler.fast_schedule(task, first)
 procedure FastSchedule(task, first) {
 FS1: assertFailed := assertFailed \/ InSeq(ready, task);
-     evt := E(self, "ready.contains", task, B(InSeq(ready, task)));
+     \* the "task not in ready" sanity assertion is a read the code may or may not perform
+     either { evt := E(self, "ready.contains", task, B(InSeq(ready, task))); }
+     or { evt := Tau(self); };
 FS2: if (first) { ready := <<task>> \o ready; evt := E(self, "ready.appendleft", task, "-"); }
      else { ready := Append(ready, task); evt := E(self, "ready.append", task, "-"); };
 FS3: if (Threaded) { ev := TRUE; evt := E(self, "ev.set", NoArg, "-"); }
@@ -246,7 +248,8 @@ Init == (* Global variables *)
 
 FS1(self) == /\ pc[self] = "FS1"
              /\ assertFailed' = (assertFailed \/ InSeq(ready, task[self]))
-             /\ evt' = E(self, "ready.contains", task[self], B(InSeq(ready, task[self])))
+             /\ \/ /\ evt' = E(self, "ready.contains", task[self], B(InSeq(ready, task[self])))
+                \/ /\ evt' = Tau(self)
              /\ pc' = [pc EXCEPT ![self] = "FS2"]
              /\ UNCHANGED << ready, calls, clPipe, hubPipe, ev, incoming, 
                              hubTasks, slock, clCreated, inlock, outlock, ran, 
